@@ -290,7 +290,10 @@ class World:
         for p in prims:
             name, _, arg = p.partition("=")
             dt = s.dt
-            if name == "stepEnd":
+            if name == "cbEdit":
+                if st.get("in_cb"):          # the plain user 'poke' op is applied to both twins by the caller
+                    cb_edit(s)
+            elif name == "stepEnd":
                 st["dld"] = s.dt
                 s.dt_last_done = s.dt
             elif name == "flipDt":
@@ -392,7 +395,15 @@ class World:
                     rim._L = FT(("reb_integrator_mercurius_L_mercury", lib))
             elif name == "mPart2":
                 s.ri_mercurius.is_synchronized = int(arg)
+                if st.get("post_cb"):
+                    # MERCURIUS also calls post_timestep_modifications inside the IAS15 sub-steps of a
+                    # close encounter (mercurius.c:362-364): part2 must see the callback
+                    def cb(sp):
+                        cb_edit(sp.contents)
+                    s.post_timestep_modifications = cb
                 lib.reb_integrator_mercurius_part2(r)
+                if st.get("post_cb"):
+                    s._post_timestep_modifications = type(s._post_timestep_modifications)()
             elif name == "mI":
                 lib.reb_integrator_mercurius_interaction_step(r, ev(arg, dt, K))
             elif name == "mJ":
@@ -559,6 +570,11 @@ def add_integrates(rng, ops, clock, syncFirst, pure=False):
             n, k, rev, rc = clock.integrate(tmax, exact)
             toks.append("i:%d:%d:%d:%d:%d:%d:%d" % (n, k, exact, rev, syncFirst[0], syncFirst[1], rc))
             pyops.append(("i", tmax, exact, kind))
+        elif op == "s" and rng.chance(0.25):
+            pre, post = rng.choice([(1, 0), (0, 1), (1, 1)])
+            clock.step()
+            toks.append("c:%d:%d" % (pre, post))
+            pyops.append(("c", pre, post))
         else:
             if op == "s":
                 clock.step()
@@ -576,6 +592,28 @@ def seed_variation(s, var):
         k = var.index + i
         p.x, p.y, p.z = 1e-3 * math.sin(1.0 + k), 1e-3 * math.cos(2.0 + 3 * k), 1e-4 * math.sin(5.0 * k)
         p.vx, p.vy, p.vz = 1e-3 * math.cos(0.3 + k), -1e-3 * math.sin(1.7 * k + 0.1), 1e-4 * math.cos(4.0 * k)
+
+
+def cb_edit(s):
+    """what the pre/post timestep callbacks do in the replay: a small drag on the velocities"""
+    pp = s._particles
+    for i in range(1, s.N):
+        pp[i].vx = pp[i].vx * (1. - 1e-3)
+        pp[i].vy = pp[i].vy * (1. - 1e-3)
+        pp[i].vz = pp[i].vz * (1. - 2e-3)
+
+
+def real_step_with_callbacks(W, A, pre, post):
+    def cb(sp):
+        cb_edit(sp.contents)
+    if pre:
+        A.pre_timestep_modifications = cb
+    if post:
+        A.post_timestep_modifications = cb
+    W.lib.reb_simulation_step(ctypes.byref(A))
+    FT = type(A._pre_timestep_modifications)
+    A._pre_timestep_modifications = FT()
+    A._post_timestep_modifications = FT()
 
 
 def whfast_setup(o):
@@ -645,6 +683,7 @@ def replay(c, W, exe, ncases, family):
     hist = {}
     predicted_crashes = [0]
     nint = [0]
+    ncb = [0]
     for (o, system, ops, setup, key, toks), line, model in zip(cases, lines, out):
         integ_name = "whfast" if family == "var" else family
         A = W.sim(system, integ_name, setup)
@@ -668,7 +707,11 @@ def replay(c, W, exe, ncases, family):
             prims = [p for p in prims.split(",") if p]
             mflags = [int(x) for x in fl.split()]
             # real code on A
-            if op == "i":
+            st["in_cb"] = (op == "c")
+            st["post_cb"] = (op == "c" and opt[2] == 1)
+            if op == "c":
+                real_step_with_callbacks(W, A, opt[1], opt[2])
+            elif op == "i":
                 A.exact_finish_time = opt[2]
                 st["tmax"] = opt[1]
                 W.lib.reb_simulation_integrate(ctypes.byref(A), opt[1])
@@ -700,17 +743,20 @@ def replay(c, W, exe, ncases, family):
             if a != b or aflags != mflags:
                 what = "flags" if aflags != mflags else [k2 for k2 in a if a[k2] != b[k2]][0]
                 c.corr_break("%s schedule replay differs from reb_simulation_%s in %s (op %d of '%s', options %s)"
-                             % (family, {"s": "step", "i": "integrate"}.get(op, "synchronize"), what, k, " ".join(toks), o),
+                             % (family, {"s": "step", "i": "integrate", "c": "step (with pre/post callbacks)"}.get(op, "synchronize"), what, k, " ".join(toks), o),
                              {"driver_line": line, "op_index": k, "model_prims": prims, "model_flags": mflags,
                               "real_flags": aflags, "system": system, "options": o})
                 return
-            c.count(("replay", family) + key + ((op, opt[3], opt[2]) if op == "i" else (op,)), nontrivial=(op in "syi"))
+            c.count(("replay", family) + key + ((op, opt[3], opt[2]) if op == "i" else opt), nontrivial=(op in "syic"))
+            if op == "c":
+                ncb[0] += 1
             if op == "i":
                 nint[0] += 1
         hk = " ".join(str(x) for x in key[:2])
         hist[hk] = hist.get(hk, 0) + 1
     c.cov["replay_" + family] = {"cases": ncases, "primitive_calls_executed": nprims, "histogram": hist,
-                                 "sequences_cut_at_a_predicted_crash": predicted_crashes[0], "integrate_calls": nint[0]}
+                                 "sequences_cut_at_a_predicted_crash": predicted_crashes[0], "integrate_calls": nint[0],
+                                 "steps_with_callbacks": ncb[0]}
     c.sample({"replay_line": lines[0], "model": out[0][:300]})
 
 
@@ -760,7 +806,11 @@ def replay_mercurius(c, W, exe, ncases, coarse=False):
             prims, _, fl = seg.partition("@")
             prims = [p for p in prims.split(",") if p]
             mflags = [int(x) for x in fl.split()]
-            if op == "i":
+            st["in_cb"] = (op == "c")
+            st["post_cb"] = (op == "c" and opt[2] == 1)
+            if op == "c":
+                real_step_with_callbacks(W, A, opt[1], opt[2])
+            elif op == "i":
                 A.exact_finish_time = opt[2]
                 st["tmax"] = opt[1]
                 W.lib.reb_simulation_integrate(ctypes.byref(A), opt[1])
@@ -778,7 +828,7 @@ def replay_mercurius(c, W, exe, ncases, coarse=False):
                 dv = prng.uniform(-1e-3, 1e-3)
                 A.particles[i].vy += dv
                 B.particles[i].vy += dv
-            if op in "si" and A.ri_mercurius._encounter_N > 1:
+            if op in "sic" and A.ri_mercurius._encounter_N > 1:
                 nenc += 1
                 if not coarse:
                     break      # a close encounter happened: outside the part replayable through primitives
@@ -791,11 +841,11 @@ def replay_mercurius(c, W, exe, ncases, coarse=False):
             if a != b or aflags != mflags:
                 what = "flags" if aflags != mflags else [k2 for k2 in a if a[k2] != b[k2]][0]
                 c.corr_break("mercurius schedule replay differs from reb_simulation_%s in %s (op %d of '%s', safe_mode=%d)"
-                             % ({"s": "step", "i": "integrate"}.get(op, "synchronize"), what, k, " ".join(toks), safe),
+                             % ({"s": "step", "i": "integrate", "c": "step (with pre/post callbacks)"}.get(op, "synchronize"), what, k, " ".join(toks), safe),
                              {"driver_line": line, "op_index": k, "model_prims": prims, "model_flags": mflags,
                               "real_flags": aflags, "system": system})
                 return
-            c.count(("replay", "mercurius", coarse, safe, op, tuple(mflags), A.ri_mercurius._encounter_N > 1), nontrivial=(op in "syi"))
+            c.count(("replay", "mercurius", coarse, safe, opt if op == "c" else op, tuple(mflags), A.ri_mercurius._encounter_N > 1), nontrivial=(op in "syic"))
     c.cov["replay_mercurius" + ("_with_encounters" if coarse else "")] = {"cases": ncases, "primitive_calls_executed": nprims, "ops_with_a_close_encounter": nenc, "integrate_calls": nint}
 
 
@@ -1421,6 +1471,71 @@ def archive_outputs(c, W, cfgs):
     c.cov["archive_outputs_worst_relative_difference"] = {k: float("%.3g" % v) for k, v in sorted(worst.items())}
 
 
+def callback_search(c, W, cfgs):
+    """(viii) particle edits made INSIDE the step through pre_/post_timestep_modifications (a drag
+    proportional to dt): unsafe mode must give what safe mode gives — the callback has to see
+    synchronised particles and its edit has to be picked up by the integrator's internal coordinates"""
+    want = ["whfast c0 k0 corr0 c2=0", "whfast c1 k0 corr0 c2=0", "whfast c2 k0 corr0 c2=0", "whfast c3 k0 corr0 c2=0",
+            "whfast c0 k0 corr11 c2=0", "whfast c0 k2 corr0 c2=0", "saba SABA(10,6,4)", "saba SABACM2", "saba SABACL3", "mercurius",
+            "eos phi0=0 phi1=0 n=2", "eos phi0=3 phi1=1 n=2", "eos phi0=8 phi1=1 n=2"]
+    pick = [x for x in cfgs if x[0] in want] if not c.thorough else [x for x in cfgs if "c2=1" not in x[0] and "var=" not in x[0]]
+    worst = {}
+    nsteps = 120 if c.thorough else 60
+
+    def drag(sp):
+        s_ = sp.contents
+        f = 1. - 0.05 * abs(s_.dt)
+        pp = s_._particles
+        for i in range(1, s_.N):
+            pp[i].vx = pp[i].vx * f
+            pp[i].vy = pp[i].vy * f
+            pp[i].vz = pp[i].vz * f
+
+    for label, integ, mk, has_keep in pick:
+        fam = label.split()[0]
+        for which in ("pre", "post", "both"):
+            rng = c.rng.fork()
+            system = gen_system(rng)
+            if integ == "saba":
+                system["N_active"], system["testparticle_type"] = -1, 0
+            if integ == "mercurius":
+                system["particles"] = [p if i == 0 else (p[0] * 0.03,) + p[1:] for i, p in enumerate(system["particles"])]
+            if integ == "eos":
+                system["dt"] *= 0.2
+
+            def run_cb(mode, halve=False):
+                sy = dict(system)
+                if halve:
+                    sy["dt"] = system["dt"] / 2
+                s_ = W.sim(sy, integ, mk(mode))
+                if which in ("pre", "both"):
+                    s_.pre_timestep_modifications = drag
+                if which in ("post", "both"):
+                    s_.post_timestep_modifications = drag
+                for _ in range(nsteps * (2 if halve else 1)):
+                    W.lib.reb_simulation_step(ctypes.byref(s_))
+                W.lib.reb_simulation_synchronize(ctypes.byref(s_))
+                return coords(W, s_)
+
+            ca, cu = run_cb("safe"), run_cb("unsafe")
+            sx = max(abs(v) for p in ca for v in p[:3])
+            sv = max(abs(v) for p in ca for v in p[3:])
+            err = max(max(abs(a[k] - b[k]) / (sx if k < 3 else sv) for k in range(6)) for a, b in zip(ca, cu))
+            tol = 1e-10
+            if integ == "eos":
+                ch = run_cb("safe", True)
+                tol = 10 * max(max(abs(a[k] - b[k]) / (sx if k < 3 else sv) for k in range(6)) for a, b in zip(ca, ch)) + 1e-10
+            c.count(("callback", label, which))
+            worst[fam] = max(worst.get(fam, 0.0), err if integ != "eos" else err / tol)
+            if not err <= tol:
+                c.violation("callback:%s:%s" % (fam, which),
+                            "%s: with a %s_timestep_modifications callback that edits velocities (drag), unsafe mode + synchronize differs from safe mode by %.3g relative after %d steps"
+                            % (label, "pre/post" if which == "both" else which, err, nsteps),
+                            {"integrator": integ, "label": label, "system": system, "callback": which, "steps": nsteps,
+                             "edit": "v *= 1 - 0.05*|dt| for every particle but the first", "relative_difference": err})
+    c.cov["callback_search_worst (eos: fraction of its tolerance)"] = {k: float("%.3g" % v) for k, v in sorted(worst.items())}
+
+
 def search(c, W):
     rng0 = c.rng.fork()
     cfgs = integrator_configs(rng0, c.thorough)
@@ -1447,27 +1562,44 @@ def search(c, W):
                 # make the second corrector non-negligible (it is O(eps^2 dt^4)): Jupiter-mass planets
                 system["particles"] = [p if (i == 0 or p[0] == 0.0) else (1e-3 * system["particles"][0][0],) + p[1:]
                                        for i, p in enumerate(system["particles"])]
-            # ---------------- (i) interruptions do not change a bit
-            mode = "keep" if has_keep else "unsafe"
+            # ---------------- (i) interruptions do not change a bit; a copy / reloaded snapshot taken at an
+            # unsynchronised intermediate time continues on the same trajectory, bit for bit
             for rep in range(3 if c.thorough else 2):
+                mode = "keep" if (has_keep and rep % 2 == 0) else "unsafe"
+                allow_sync = (mode == "keep")
                 A = W.sim(system, integ, mk(mode))
                 B = W.sim(system, integ, mk(mode))
                 plan = []
+                clones = []
+                kclone = rng.randint(2, nsteps_bit - 4)
                 for k in range(nsteps_bit):
                     W.lib.reb_simulation_step(ctypes.byref(A))
                     W.lib.reb_simulation_step(ctypes.byref(B))
+                    for _, cl in clones:
+                        W.lib.reb_simulation_step(ctypes.byref(cl))
+                    if k == kclone:
+                        try:
+                            clones.append(("copy()", B.copy()))
+                            fn = os.path.join(tmpdir, "clone.bin")
+                            if os.path.exists(fn):
+                                os.remove(fn)
+                            B.save_to_file(fn)
+                            clones.append(("save_to_file + Simulation(file)", W.rb.Simulation(fn)))
+                        except Exception as ex:
+                            c.violation("clone-raises:" + label.split()[0], "%s (%s): copy / save+load after step %d raises %s" % (label, mode, k, str(ex)[:150]),
+                                        {"integrator": integ, "label": label, "mode": mode, "system": system, "clone_after_step": k})
                     if rng.chance(0.5):
                         for _ in range(rng.randint(1, 3)):
                             kind = rng.choice(KINDS)
-                            if not has_keep and kind in ("sync", "sync2"):
+                            if not allow_sync and kind in ("sync", "sync2"):
                                 kind = "energy"
                             plan.append((k, kind))
-                            interrupt(W, B, kind, tmpdir, has_keep)
-                mid = (final_state(W, A, integ), final_state(W, B, integ)) if not has_keep else None
+                            interrupt(W, B, kind, tmpdir, allow_sync)
+                mid = (final_state(W, A, integ), final_state(W, B, integ)) if not allow_sync else None
                 W.lib.reb_simulation_synchronize(ctypes.byref(A))
                 W.lib.reb_simulation_synchronize(ctypes.byref(B))
                 fa, fb = final_state(W, A, integ), final_state(W, B, integ)
-                c.count(("bitwise", label, isys, rep), nontrivial=len(plan) > 0)
+                c.count(("bitwise", label, isys, rep, mode), nontrivial=len(plan) > 0)
                 if fa != fb or (mid is not None and mid[0] != mid[1]):
                     c.violation("interleaving:" + label.split()[0],
                                 "%s (%s): calls %s between steps change the final state (not bit-identical to the uninterrupted run)"
@@ -1475,6 +1607,18 @@ def search(c, W):
                                 {"integrator": integ, "label": label, "mode": mode, "system": system, "steps": nsteps_bit,
                                  "interruptions_after_step": plan})
                     break
+                for how, cl in clones:
+                    W.lib.reb_simulation_synchronize(ctypes.byref(cl))
+                    fc = final_state(W, cl, integ)
+                    c.count(("clone", label, isys, rep, mode, how))
+                    if fc != fa:
+                        diffk = [q for q in fa if fa[q] != fc.get(q)]
+                        c.violation("clone-continue:%s" % label.split()[0],
+                                    "%s (%s): a simulation obtained by %s after step %d (unsynchronised) and continued for %d steps does not end in the state of the uninterrupted run (differs in %s; is_synchronized flags of the clone right after cloning may be wrong)"
+                                    % (label, mode, how, kclone, nsteps_bit - 1 - kclone, diffk),
+                                    {"integrator": integ, "label": label, "mode": mode, "system": system, "steps": nsteps_bit,
+                                     "clone_after_step": kclone, "how": how})
+                        break
             # ---------------- (iii) synchronize twice = once
             A = W.sim(system, integ, mk("unsafe"))
             for k in range(5):
@@ -1580,6 +1724,7 @@ def search(c, W):
     c.cov["search_configurations"] = len(cfgs)
     api_sequences(c, W, cfgs)
     archive_outputs(c, W, cfgs)
+    callback_search(c, W, cfgs)
 
 
 def run(c):
